@@ -13,7 +13,7 @@ var _ = govalidator.TagMap
 // SpecValidated: what the `valid:"..."` struct tags guarantee about presence - derived by govc from the
 // tags in the current source on every run (required pointer members are non-nil, recursively; required
 // strings and lists are non-empty); all other validators are dropped (a weaker predicate).
-func SpecValidated(c *Config) bool { return verif_validated(c) }
+func SpecValidated(c *Config) bool   { return verif_validated(c) }
 func verif_validated(c *Config) bool { return true }
 
 func specIsErrors(err error) bool {
